@@ -111,10 +111,24 @@ SeedsStruct4s == {
    << <<KAddNode,1,0,1,0>>, <<KAddNode,2,1,1,0>>, <<KAddNode,3,2,1,0>> >>,
    << <<KAddNode,1,0,1,0>>, <<KAddNode,3,2,1,0>> >>,
    << <<KAddNode,1,0,1,0>>, <<KAddNode,2,1,2,0>>, <<KAddNode,3,0,3,0>>, <<KAddNode,4,1,3,0>> >> }
+\* 5 nodes, 4 frames: two divisions in one lineage; a division below a chain with a grandchild below the
+\* first daughter; a 4-frame chain; a chain with two skip edges
+SeedsStruct5s == {
+   << <<KAddNode,1,0,1,0>>, <<KAddNode,2,1,1,0>>, <<KAddNode,3,1,2,0>>, <<KAddEdge,1,3,0,0>>,
+      <<KAddNode,4,2,3,0>>, <<KAddNode,5,2,4,0>>, <<KAddEdge,2,5,0,0>> >>,
+   << <<KAddNode,1,0,1,0>>, <<KAddNode,2,1,1,0>>, <<KAddNode,3,2,1,0>>, <<KAddNode,4,2,2,0>>, <<KAddEdge,2,4,0,0>>,
+      <<KAddNode,5,3,3,0>> >>,
+   << <<KAddNode,1,0,1,0>>, <<KAddNode,2,1,1,0>>, <<KAddNode,3,2,1,0>>, <<KAddNode,4,3,1,0>> >>,
+   << <<KAddNode,1,0,1,0>>, <<KAddNode,3,2,1,0>>, <<KAddNode,2,0,2,0>>, <<KAddNode,4,3,2,0>> >> }
+\* 6 labels, 5 of them used by a lineage with two divisions (1 -> {2, 3}, 2 -> {4, 5}) on 1x3 frames
+SeedsSeg6s == {
+   << <<KPaint,0,3,1,2>>, <<KPaint,1,1,2,2>>, <<KPaint,1,4,3,4>>, <<KAddEdge,1,3,0,0>>,
+      <<KPaint,2,1,4,6>>, <<KPaint,2,4,5,8>>, <<KAddEdge,2,5,0,0>> >> }
 RECURSIVE RunPath(_, _)
 RunPath(s, p) == IF p = <<>> THEN s ELSE RunPath(Trim(StepOrd(s, Head(p), 1).s), Tail(p))
 
 IsPrefixOf(a, b) == Len(a) <= Len(b) /\ SubSeq(b, 1, Len(a)) = a
+\* (seeds may be longer than 5 calls)
 SeedLen(p) == LET L == {Len(sd) : sd \in {x \in Seeds : IsPrefixOf(x, p)}} IN CHOOSE m \in L : \A k \in L : k <= m
 Init == \E p \in Seeds : S = RunPath(EmptyS, p) /\ path = p
 Next == \E c \in ExpCalls(S) : InDomain(S, c) /\ \E r \in StepSet(S, c) :
